@@ -4,10 +4,18 @@ package manager
 // request sent for a target names that target and the shared template is never modified.
 
 import (
+	"context"
+	"errors"
+	"io"
+
+	"google.golang.org/grpc"
 	"google.golang.org/protobuf/proto"
+	"github.com/openconfig/gnmi/cache"
+	"github.com/openconfig/gnmi/ctree"
 	zz "github.com/openconfig/gnmi/zzverif"
 
 	gpb "github.com/openconfig/gnmi/proto/gnmi"
+	tpb "github.com/openconfig/gnmi/proto/target"
 )
 
 // VerifC01_CustomizeRequest: the per-target request is a private copy of the shared template.
@@ -39,4 +47,96 @@ func VerifC01_CustomizeRequest(h *zz.H) {
 		}
 	}
 	h.Trace("customized", ra != nil)
+}
+
+// ---------------------------------------------------------------------------------------------
+// VerifC01_ManagerHandover: target -> manager -> cache across a reconnect. The manager's
+// callbacks are wired to a real cache the way the collector wires them (Update stamps the target
+// into the prefix and feeds cache.GnmiUpdate; Connect/Sync/Reset go to the cache). The target's
+// first stream carries leaves a and b and then ends - cleanly (io.EOF) or with an error; the
+// manager re-subscribes; the second stream carries only a (the target no longer has b). Once the
+// streams quiesce the cache holds the target's final state: a with its new value, no stale b.
+
+type c01Stream struct {
+	grpc.ClientStream
+	ctx  context.Context
+	msgs []*gpb.SubscribeResponse
+	end  error // returned after the messages; nil = stay silent until the context ends
+	pos  int
+	done chan bool
+}
+
+func (s *c01Stream) Send(*gpb.SubscribeRequest) error { return nil }
+func (s *c01Stream) CloseSend() error                 { return nil }
+func (s *c01Stream) Context() context.Context         { return s.ctx }
+func (s *c01Stream) Recv() (*gpb.SubscribeResponse, error) {
+	if s.pos < len(s.msgs) {
+		s.pos++
+		return s.msgs[s.pos-1], nil
+	}
+	if s.end != nil {
+		return nil, s.end
+	}
+	select {
+	case s.done <- true: // everything this stream had has been handed over
+	default:
+	}
+	<-s.ctx.Done()
+	return nil, s.ctx.Err()
+}
+
+func c01Leaf(name string, ts, v int64) *gpb.SubscribeResponse {
+	return &gpb.SubscribeResponse{Response: &gpb.SubscribeResponse_Update{Update: &gpb.Notification{Timestamp: ts,
+		Update: []*gpb.Update{{Path: &gpb.Path{Elem: []*gpb.PathElem{{Name: name}}}, Val: &gpb.TypedValue{Value: &gpb.TypedValue_IntVal{IntVal: v}}}}}}}
+}
+
+func VerifC01_ManagerHandover(h *zz.H) {
+	c := cache.New([]string{"t"})
+	w := &c13World{h: h}
+	m, err := NewManager(Config{
+		Update: func(name string, n *gpb.Notification) {
+			if n.Prefix == nil {
+				n.Prefix = &gpb.Path{}
+			}
+			n.Prefix.Target = name
+			c.GnmiUpdate(n)
+		},
+		Connect:           c.Connect,
+		Sync:              c.Sync,
+		Reset:             c.Reset,
+		ConnectionManager: c13CM{w},
+	})
+	h.Assert(err == nil, "manager created")
+	ts2 := int64(20)
+	if h.Range("second_stream_clock", 0, 1) == 1 {
+		ts2 = 5 // the target restarted with an earlier clock
+	}
+	quiet := make(chan bool, 1)
+	ends := []error{io.EOF, errors.New("stream broke")}
+	streams := 0
+	subscribeClient = func(ctx context.Context, conn *grpc.ClientConn) (gpb.GNMI_SubscribeClient, error) {
+		streams++
+		if streams == 1 {
+			return &c01Stream{ctx: ctx, msgs: []*gpb.SubscribeResponse{c01Leaf("a", 10, 1), c01Leaf("b", 10, 2)}, end: ends[h.Range("first_stream_ends", 0, 1)]}, nil
+		}
+		return &c01Stream{ctx: ctx, msgs: []*gpb.SubscribeResponse{c01Leaf("a", ts2, 10)}, done: quiet}, nil
+	}
+	h.Assert(m.Add("t", &tpb.Target{Addresses: []string{"addr"}}, &gpb.SubscribeRequest{}) == nil, "C01: a configured target is managed")
+	h.Await(quiet) // the second stream has handed over everything it had
+	h.Quiesce()
+	var got []string
+	var vals []int64
+	c.Query("t", []string{"*"}, func(p []string, _ *ctree.Leaf, v interface{}) error {
+		if len(p) > 0 && p[0] == "meta" {
+			return nil
+		}
+		got = append(got, p[len(p)-1])
+		vals = append(vals, v.(*gpb.Notification).Update[0].Val.GetIntVal())
+		return nil
+	})
+	h.Assert(len(got) == 1 && got[0] == "a", "C01: once the streams quiesce the collector holds the target's final state (no missing, extra or stale leaves)")
+	if len(got) == 1 {
+		h.Assert(vals[0] == 10, "C01: once the streams quiesce the collector holds the target's final values")
+	}
+	m.Remove("t")
 }
